@@ -2,13 +2,13 @@
 Check implementations.  Each check_<kind>(prop, tier) returns a process exit code.
 No top-level driver code; `run` (the entry point) calls main().
 """
-import sys, os, json, random, time, collections
+import sys, os, re, json, random, time, collections
 
 HERE = os.path.dirname(os.path.abspath(__file__))
 if HERE not in sys.path:
     sys.path.insert(0, HERE)
 
-import drive, gen, vlib, model, pairs, arith, history, fresh, interrupt, render, blt  # noqa: E402
+import drive, gen, vlib, model, pairs, arith, history, fresh, interrupt, render, blt, optreplay  # noqa: E402
 
 BATCH = 1200     # traces per TLC start (JSON loading dominates; keeps the heap small)
 
@@ -556,8 +556,35 @@ def arith_stage(R, prop, tier):
     R.stage('arithmetic calls judged by Num.tla', calls=len(calls), relevant=len(mine), failures=nf)
 
 
+OPT_CFG = ('INIT Init\nNEXT Next\nINVARIANT StatutoryImmune\nINVARIANT Precedence\nINVARIANT Reported\nINVARIANT Exported\nCONSTANTS\n'
+           ' RULESET = {%s}\n MAXACTIVE = %d\n EXPORT = %d\n')
+
+
 def options_stage(R, prop, tier):
-    pass
+    "(M) the option lattice of Options.tla, all rules; (S->C) exported cases replayed into Election.__init__"
+    rules = ', '.join('"%s"' % r for r in drive.RULES)
+    res = vlib.tlc('Options', OPT_CFG % (rules, 2, 61 if tier == 'quick' else 1), workers=8, heap_mb=3072, timeout=1500)
+    R.add_tlc(res)
+    viol = re.search(r'Invariant (\w+) is violated', res['out'])
+    R.stage('model-check Options.tla', distinct_states=res['distinct'], wall_s=round(res['wall'], 1), invariant_violated=viol.group(1) if viol else None)
+    if viol:
+        raise vlib.Machinery('Options.tla: invariant %s violated in the specification itself (SPEC-DIVERGENCE to be triaged):\n%s' % (viol.group(1), res['out'][-2000:]))
+    if 'Error:' in res['out']:
+        raise vlib.Machinery('TLC error in Options.tla:\n' + res['out'][-2500:])
+    cases = optreplay.cases_of(res['out'])
+    nd = 0
+    for case in cases:
+        diffs, blt_, cmd = optreplay.replay(case)
+        R.cov['traces_validated_against_impl'] += 1
+        R.cov['evaluations'] += 1
+        if diffs:
+            nd += 1
+            R.violation('C17: rule %s cmd=%s file=%s: %s expected %s, observed %s' % (case['rule'], case['cmd'], case['file'], diffs[0][0], diffs[0][1], diffs[0][2]),
+                        dict(blt=blt_, options=cmd, differences=diffs, case=case))
+    R.stage('spec->code replay of option cases', cases=len(cases), differences=nd)
+    R.cov['distinct_nontrivial'] += len(cases)
+    if cases:
+        R.sample(dict(kind='option case', rule=cases[0]['rule'], cmd=cases[0]['cmd'], file=cases[0]['file'], effective=cases[0]['effective']))
 
 
 # ----------------------------------------------------------------------------------------
